@@ -223,6 +223,7 @@ fn market_event(stream: u64, seq: u64, instr: usize, price: Decimal) -> MarketSt
 
 #[derive(Debug, Clone)]
 struct GatedData {
+    fault_at: Option<usize>,
     data: Dataset,
     next_stream: Arc<AtomicU64>,
     gates: Gates,
@@ -241,6 +242,7 @@ impl BacktestMarketData for GatedData {
         let gate = gate_of(&self.gates, id);
         let events = self.data.events.clone();
         let start = self.start.clone();
+        let fault_at = self.fault_at;
         Ok(futures::stream::unfold((0u64, gate, events), move |(k, gate, events)| {
           let start = start.clone();
           async move {
@@ -264,6 +266,9 @@ impl BacktestMarketData for GatedData {
             }
             if k as usize >= events.len() {
                 return None;
+            }
+            if fault_at == Some(k as usize) {
+                panic!("scripted data source fault at dataset index {k}");
             }
             let (instr, price) = events[k as usize];
             Some((market_event(id, k, instr, price), (k + 1, gate, events)))
@@ -492,6 +497,10 @@ struct Case {
     gated: bool,
     workers: usize, // 0 = current-thread + paused clock
     latency_ms: u64,
+    /// gated source only: the data source dies (panics) when asked for this dataset index - a corrupt record of a
+    /// lazily decoded file, say. Nothing after it can be fed; the backtest must not pass that off as a result.
+    #[serde(default)]
+    fault_at: Option<usize>,
 }
 
 type V = (&'static str, String);
@@ -526,7 +535,7 @@ fn run_group(case: &Case, subset: &[usize]) -> Result<RunOut, V> {
     let watchdog = if case.workers == 0 { Duration::from_secs(36_000) } else { Duration::from_secs(120) };
     let result = rt.block_on(async {
         if case.gated {
-            let md = GatedData { data: dataset.clone(), next_stream: Arc::new(AtomicU64::new(1)), gates: gates.clone(), start: start.clone() };
+            let md = GatedData { fault_at: case.fault_at, data: dataset.clone(), next_stream: Arc::new(AtomicU64::new(1)), gates: gates.clone(), start: start.clone() };
             tokio::time::timeout(watchdog, run_backtests(Arc::new(constants(&ins, md, case.latency_ms)), dynamics)).await
         } else {
             let events: Vec<MarketStreamEvent<InstrumentIndex, Tick>> = dataset.events.iter().enumerate().map(|(k, (i, p))| market_event(0, k as u64, *i, *p)).collect();
@@ -610,6 +619,9 @@ fn judge_single(case: &Case, b: usize, obs: &Obs, dg: &Digest, out: &mut Outcome
         if case.events.last().map(|e| e.0) == Some(MARK) {
             out.cells.push("dataset_ends_with_reconnect_marker".into());
         }
+        if case.events.first().map(|e| e.0) == Some(MARK) {
+            out.cells.push("dataset_begins_with_reconnect_marker".into());
+        }
     }
     // (ii) ownership of everything the engine saw
     let tag = format!("strategy=bt{b}");
@@ -674,6 +686,26 @@ fn judge_single(case: &Case, b: usize, obs: &Obs, dg: &Digest, out: &mut Outcome
 
 fn run_case(case: &Case) -> Result<Outcome, V> {
     let mut out = Outcome { events: 0, checks: 0, cells: vec![], fills_per_bt: vec![] };
+    if let Some(k) = case.fault_at {
+        // the data source dies at index k: whatever is reported must not be a summary of a partially fed dataset
+        out.checks += 1;
+        return match run_group(case, &[0]) {
+            Err(("run_backtests_failed", _)) => {
+                out.cells.push("data_source_fault:reported_as_failure".into());
+                Ok(out)
+            }
+            Err(other) => Err(other),
+            Ok(run) => {
+                let fed = run.obs[0].market.len();
+                let items = case.events.iter().filter(|e| e.0 != MARK).count();
+                if fed < items {
+                    Err(("summary_returned_although_the_dataset_was_not_fed_completely", format!("the data source died at dataset index {k}; the engine was fed {fed} of {items} market items, did not stop on a fatal error, and the backtest still returned a summary")))
+                } else {
+                    Err(("HARNESS_fault_not_injected", format!("fault at {k} but all {items} items were fed")))
+                }
+            }
+        };
+    }
     let all: Vec<usize> = (0..case.params.len()).collect();
     let conc = run_group(case, &all)?;
     out.cells.push(format!("runtime:{}", if case.workers == 0 { "current_thread_paused".to_string() } else { format!("multi_thread_{}", case.workers) }));
@@ -715,7 +747,9 @@ fn gen_case(rng: &mut Rng, workers: usize, gated: bool, small: bool) -> Case {
         .map(|k| {
             // reconnect markers: never the very first entry (the gated source learns its stream instance from
             // the first item), anywhere else incl. the last entry and back to back
-            if with_marks && k > 0 && (rng.chance(1, 12) || (k + 1 == n && rng.chance(1, 2))) {
+            // (a dataset may also BEGIN with markers - a recording cut while the link was down; only the gated
+            // source needs a first item to learn its stream instance)
+            if with_marks && ((k > 0 && (rng.chance(1, 12) || (k + 1 == n && rng.chance(1, 2)))) || (k == 0 && !gated && rng.chance(1, 2))) {
                 return (MARK, 0);
             }
             let i = rng.usize_below(N_INSTR);
@@ -734,14 +768,22 @@ fn gen_case(rng: &mut Rng, workers: usize, gated: bool, small: bool) -> Case {
                 // event, so an order placed there can carry an exchange time OLDER than the initial account
                 // snapshot and its balance update is then (legitimately, C09) ignored by the engine
                 let at = 1 + rng.below(n as u64 - 1);
-                if events[at as usize].0 != MARK {
+                let first_item = events.iter().position(|e| e.0 != MARK).unwrap_or(0) as u64;
+                if events[at as usize].0 != MARK && at > first_item {
                     trades.insert(at, (rng.usize_below(N_INSTR), rng.chance(2, 3), rng.range(1, 20)));
                 }
             }
             Params { trades }
         })
         .collect();
-    Case { events, params, gated, workers, latency_ms: if workers == 0 { *rng.pick(&[0u64, 10, 500]) } else { *rng.pick(&[0u64, 1, 2]) } }
+    // some gated single-runtime cases have a data source that dies part-way
+    let fault_at = if gated && workers == 0 && !small && rng.chance(1, 10) {
+        let first_item = events.iter().position(|e| e.0 != MARK).unwrap_or(0);
+        Some(rng.range_u(first_item + 1, n - 1))
+    } else {
+        None
+    };
+    Case { events, params, gated, workers, latency_ms: if workers == 0 { *rng.pick(&[0u64, 10, 500]) } else { *rng.pick(&[0u64, 1, 2]) }, fault_at }
 }
 
 fn execute(case: &Case, report: &mut Report) {
@@ -831,6 +873,8 @@ fn main() {
             "backtest_with_fills",
             "dataset_with_reconnect_markers",
             "dataset_ends_with_reconnect_marker",
+            "dataset_begins_with_reconnect_marker",
+            "data_source_fault:reported_as_failure",
         ] {
             report.require(c);
         }
